@@ -27,6 +27,16 @@ def m_fn_call(ctx, args, callee):
     return ctx.call_closure(args[0], list(tup.f) if isinstance(tup, Agg) else [tup])
 
 
+@model(r'^core::f64::<impl f64>::is_finite$|^f64::is_finite$|^core::f64::<impl f64>::is_nan$|^f64::is_nan$|^core::f64::<impl f64>::is_infinite$|^f64::is_infinite$')
+def m_f64_class(ctx, args, callee):
+    from .models_fmt import ExactF64
+    x = args[0]
+    k = callee.rsplit('::', 1)[1]
+    if isinstance(x, ExactF64):
+        return z3.BoolVal(k == 'is_finite')
+    return {'is_finite': z3.Not(z3.Or(z3.fpIsNaN(x), z3.fpIsInf(x))), 'is_nan': z3.fpIsNaN(x), 'is_infinite': z3.fpIsInf(x)}[k]
+
+
 # =========================================================================== strings
 class Str:
     """text value. kinds: concrete python str | TableSym (symbolic index into a table of concrete strings)
